@@ -22,12 +22,16 @@ def sessions(ctx):
 
 
 def run(ctx):
-    return sessbase.run_property(ctx, 'C03',
+    rep = sessbase.run_property(ctx, 'C03',
         'P1: TLC checks AtMostOneAlive / OnlyLatestAlive / DeadHaveTime / NoResurrection / destruction annotations over all '
         'well-formed histories of the bounded model with clocks; P2: its behaviours are replayed through the tool; P3: random '
         'well-formed histories (client- and server-side logs, server-range reuse, many incarnations); alive flags, creation and '
         'destruction times, the destroyed annotation and the displayed lifespan are compared with Session!Step by TLC.',
         [('MC_Session_life.cfg', 'C03 lifetimes with clocks', {'MaxLen': 4}), ('MC_Session_tables.cfg', 'C02/C03 tables')], sessions(ctx))
+    # lifetimes as GDB mode sees them (closures; sent messages name their target by id only)
+    from props import gdbbase
+    gdbbase.gdb_batch(ctx, rep, relevant('C03'), ctx.pick(50, 500), 1000381, cmd_rate=0.0, destroy_rate=0.02, init_break=0.0)
+    return rep
 
 
 def replay(ctx, data):
